@@ -255,6 +255,12 @@ func (s *SencBox) ParseReadBox(perSampleIVSize byte, saiz *SaizBox) error {
 	for perSampleIVSize := byte(0); perSampleIVSize <= 16; perSampleIVSize += 8 {
 		sr.SetPos(startPos)
 		ok = s.parseAndFillSamples(sr, perSampleIVSize)
+		if ok && !s.sizesMatchSaiz(saiz) {
+			// The data tiles with this IV size by coincidence only
+			s.IVs = nil
+			s.SubSamples = nil
+			ok = false
+		}
 		if ok {
 			break // We have found a working perSampleIVSize
 		}
@@ -264,6 +270,28 @@ func (s *SencBox) ParseReadBox(perSampleIVSize byte, saiz *SaizBox) error {
 	}
 	s.readButNotParsed = false
 	return nil
+}
+
+// sizesMatchSaiz checks that the parsed per-sample entries have the sizes signalled in saiz.
+// Returns true if saiz is missing or does not cover all samples, so that nothing can be checked.
+func (s *SencBox) sizesMatchSaiz(saiz *SaizBox) bool {
+	if saiz == nil || saiz.SampleCount != s.SampleCount || len(s.SubSamples) != int(s.SampleCount) {
+		return true
+	}
+	if saiz.DefaultSampleInfoSize == 0 && len(saiz.SampleInfo) < int(s.SampleCount) {
+		return true
+	}
+	for i := range s.SubSamples {
+		size := int(s.perSampleIVSize) + 2 + 6*len(s.SubSamples[i])
+		signalled := saiz.DefaultSampleInfoSize
+		if signalled == 0 {
+			signalled = saiz.SampleInfo[i]
+		}
+		if byte(size) != signalled { // sample_info_size is an 8-bit field
+			return false
+		}
+	}
+	return true
 }
 
 // parseAndFillSamples - parse and fill senc samples given perSampleIVSize
